@@ -16,7 +16,9 @@ lemma in proofs/FanoutFacts.v or FanoutTimeoutFacts.v) instead of passing unnoti
   operator forms of Cache    the retry constant of Cache.__setitem__/__getitem__, the retry default of
                              Cache.__delitem__, Cache.__contains__ (lock-free: no _transact)
   __init__                   size_limit = <Q>, with <Q> over settings.pop('size_limit', default_size_limit), shards,
-                             literals, / (true division -> rational), // * + -;  '%0<w>d' % num;  self._hash
+                             literals, / (true division -> rational), // * + -;  '%0<w>d' % num;  self._hash;
+                             `if <P>: limit['size_limit'] = size_limit` with <P> over given, op.exists(op.join(path, DBNAME)),
+                             not / and / or -> Definition shard_limit_passed (given shard_exists : bool) : bool
   aggregates                 __len__, volume, stats, check, _remove, expire/evict/cull/clear, __iter__,
                              __reversed__, transact, create_tag_index, drop_tag_index, close, reset
 """
@@ -132,21 +134,22 @@ def __init__(self, directory=None, shards=8, timeout=0.010, disk=Disk, **setting
     directory = op.expandvars(directory)
 
     default_size_limit = DEFAULT_SETTINGS['size_limit']
+    given = 'size_limit' in settings
     size_limit = __Hlimit__
+
+    def shard(num):
+        path = op.join(directory, __Hfmt__ % num)
+        limit = {}
+        if __Hpass__:
+            limit['size_limit'] = size_limit
+        return Cache(
+            directory=path, timeout=timeout, disk=disk, **limit, **settings
+        )
 
     self._count = shards
     self._directory = directory
     self._disk = disk
-    self._shards = tuple(
-        Cache(
-            directory=op.join(directory, __Hfmt__ % num),
-            timeout=timeout,
-            disk=disk,
-            size_limit=size_limit,
-            **settings,
-        )
-        for num in range(shards)
-    )
+    self._shards = tuple(shard(num) for num in range(shards))
     self._hash = self._shards[0].disk.hash
     self._caches = {}
     self._deques = {}
@@ -488,6 +491,24 @@ def compile_limit(node, fname):
     err(node, 'unsupported size_limit expression: ' + ast.unparse(node), fname)
 
 
+def compile_pass(node, fname):
+    """The guard under which a shard is handed size_limit -> boolean term over `given` (the caller gave size_limit:
+    `given = 'size_limit' in settings`, matched by the template) and `shard_exists` (op.exists(op.join(path, DBNAME)),
+    path being the shard directory: the shard's database file is there)."""
+    if is_name(node, 'given'):
+        return 'given'
+    if ast.unparse(node).replace(' ', '') == 'op.exists(op.join(path,DBNAME))':
+        return 'shard_exists'
+    if isinstance(node, ast.Constant) and isinstance(node.value, bool):
+        return 'true' if node.value else 'false'
+    if isinstance(node, ast.UnaryOp) and isinstance(node.op, ast.Not):
+        return '(negb %s)' % compile_pass(node.operand, fname)
+    if isinstance(node, ast.BoolOp):
+        sym = ' || ' if isinstance(node.op, ast.Or) else ' && '
+        return '(' + sym.join(compile_pass(v, fname) for v in node.values) + ')'
+    err(node, 'unsupported condition for handing size_limit to a shard: ' + ast.unparse(node), fname)
+
+
 def int_eval(node):
     if isinstance(node, ast.Constant) and isinstance(node.value, int) and not isinstance(node.value, bool):
         return node.value
@@ -571,18 +592,21 @@ def emit(ctx):
     m = re.match(r'^%0(\d+)d$', fmt.value) if isinstance(fmt, ast.Constant) and isinstance(fmt.value, str) else None
     if m is None:
         err(fmt, 'shard directory format is not of the form %0<w>d: ' + ast.unparse(fmt), fname)
-    out.append('''(* __init__: every shard is Cache(op.join(directory, fmt %% num), size_limit=<shard_size_limit>) for num in range(shards).
-   `size_limit` is settings.pop('size_limit', DEFAULT_SETTINGS['size_limit']).  Python's `/` is TRUE division: the value
-   is the binary64 nearest to this exact rational (the rational itself whenever it is representable). *)
+    out.append('''(* __init__: shard number num is Cache(op.join(directory, fmt %% num), [size_limit=<shard_size_limit>,] **settings) for num
+   in range(shards).  `size_limit` is settings.pop('size_limit', DEFAULT_SETTINGS['size_limit']).  Python's `/` is TRUE division:
+   the value is the binary64 nearest to this exact rational (the rational itself whenever it is representable). *)
 Definition default_size_limit : Z := %d.
 Definition shard_size_limit (size_limit shards : Z) : Q := %s.
 Definition shard_size_limit_is_true_division : bool := %s.
+(* the shard is handed size_limit under this condition only (otherwise it keeps the limit stored in it); `given`: the caller
+   gave size_limit; `shard_exists`: the shard's database file (core.DBNAME in the shard directory) exists before the open *)
+Definition shard_limit_passed (given shard_exists : bool) : bool := %s.
 (* '%%0<w>d' %% num: decimal, zero-padded to width w *)
 Definition shard_dir_width : Z := %s.
 (* self._hash = self._shards[0].disk.hash (matched by template): routing uses Disk.hash of gen/Gen_Disk.v *)
 Definition hash_is_disk_hash_of_shard0 : bool := true.
 
-''' % (default_size_limit(ctx), lim, 'true' if ty == 'Q' else 'false', m.group(1)))
+''' % (default_size_limit(ctx), lim, 'true' if ty == 'Q' else 'false', compile_pass(h['__Hpass__'], fname), m.group(1)))
 
     # ---- key-addressed methods
     out.append('(* Key-addressed methods: shard index expression and delegation record (vocabulary in base/FanoutBase.v). *)\n')
